@@ -526,6 +526,7 @@ type Contract struct {
 	Target     string // display name of the function, e.g. (*Receiver).registerMsg or newRBCEncoding or runDKG$1
 	Pkg        string
 	Requires   []Clause
+	Captured   []Clause // requires about captured variables only: checked where the closure is created
 	Ensures    []Clause
 	Modifies   []string
 	HasMod     bool
@@ -544,6 +545,7 @@ type Contract struct {
 }
 
 type SpecFunc struct {
+	Macro  bool // expanded at the use site (may read the heap of the use site)
 	Name   string
 	Params []SVar
 	Result string
@@ -628,7 +630,7 @@ func specLines(f *ast.File, fset *token.FileSet) []struct {
 	return out
 }
 
-var clauseKeywords = []string{"on-entry", "use", "requires", "ensures", "modifies", "loop", "inline", "pure", "trusted", "ghost-param", "on-call", "on-send", "at", "decreases",
+var clauseKeywords = []string{"requires-captured", "on-entry", "use", "requires", "ensures", "modifies", "loop", "inline", "pure", "trusted", "ghost-param", "on-call", "on-send", "at", "decreases",
 	"props", "let", "assert", "guards", "invariant", "ghost", "field", "holds", "unit", "recv", "call"}
 
 func stripComment(s string) string {
@@ -719,11 +721,16 @@ func parseContractFile(pkg string, path string, f *ast.File, fset *token.FileSet
 		case "spec":
 			reset()
 			// spec func name(params) type = expr
+			isMacro := strings.HasPrefix(strings.TrimSpace(rest), "macro")
+			if isMacro {
+				rest = "func" + strings.TrimPrefix(strings.TrimSpace(rest), "macro")
+			}
 			sf, err := parseSpecFunc(rest)
 			if err != nil {
 				errf(it.line, "%v", err)
 				continue
 			}
+			sf.Macro = isMacro
 			sf.Pkg = pkg
 			cf.SpecFuncs[sf.Name] = sf
 		case "lemma":
@@ -769,6 +776,10 @@ func parseContractFile(pkg string, path string, f *ast.File, fset *token.FileSet
 				curType.RecvVar = rest
 			case curOnce != nil:
 				curOnce.RecvVar = rest
+			}
+		case "requires-captured":
+			if cur != nil {
+				cur.Captured = append(cur.Captured, namedClause(it.line, rest))
 			}
 		case "requires":
 			c := namedClause(it.line, rest)
